@@ -17,7 +17,7 @@ var ErrInvalidRegex = errors.New("invalid regex")
 func StartsWith(ctx *expr.Context, input system.Collection, args ...expr.Expression) (system.Collection, error) {
 	// Validate single string input
 	if length := len(input); length > 1 {
-		return nil, fmt.Errorf("%w: input has length %v, expected 1", ErrWrongArity, length)
+		return nil, fmt.Errorf("%w: input has length %v, expected 1", expr.ErrNotSingleton, length)
 	} else if length == 0 {
 		return system.Collection{}, nil
 	}
@@ -34,7 +34,7 @@ func StartsWith(ctx *expr.Context, input system.Collection, args ...expr.Express
 	if err != nil {
 		return nil, err
 	} else if length := len(output); length != 1 {
-		return nil, fmt.Errorf("%w: received %v arguments, expected 1", ErrWrongArity, length)
+		return nil, fmt.Errorf("%w: argument evaluates to %v items, expected 1", expr.ErrNotSingleton, length)
 	}
 	prefix, err := output.ToString()
 	if err != nil {
@@ -49,7 +49,7 @@ func StartsWith(ctx *expr.Context, input system.Collection, args ...expr.Express
 func EndsWith(ctx *expr.Context, input system.Collection, args ...expr.Expression) (system.Collection, error) {
 	// Validate single string input
 	if length := len(input); length > 1 {
-		return nil, fmt.Errorf("%w: input has length %v, expected 1", ErrWrongArity, length)
+		return nil, fmt.Errorf("%w: input has length %v, expected 1", expr.ErrNotSingleton, length)
 	} else if length == 0 {
 		return system.Collection{}, nil
 	}
@@ -66,7 +66,7 @@ func EndsWith(ctx *expr.Context, input system.Collection, args ...expr.Expressio
 	if err != nil {
 		return nil, err
 	} else if length := len(output); length != 1 {
-		return nil, fmt.Errorf("%w: received %v arguments, expected 1", ErrWrongArity, length)
+		return nil, fmt.Errorf("%w: argument evaluates to %v items, expected 1", expr.ErrNotSingleton, length)
 	}
 	suffix, err := output.ToString()
 	if err != nil {
@@ -81,7 +81,7 @@ func EndsWith(ctx *expr.Context, input system.Collection, args ...expr.Expressio
 func Length(ctx *expr.Context, input system.Collection, args ...expr.Expression) (system.Collection, error) {
 	// Validate single string input
 	if length := len(input); length > 1 {
-		return nil, fmt.Errorf("%w: input has length %v, expected 1", ErrWrongArity, length)
+		return nil, fmt.Errorf("%w: input has length %v, expected 1", expr.ErrNotSingleton, length)
 	} else if length == 0 {
 		return system.Collection{}, nil
 	}
@@ -102,7 +102,7 @@ func Length(ctx *expr.Context, input system.Collection, args ...expr.Expression)
 func Upper(ctx *expr.Context, input system.Collection, args ...expr.Expression) (system.Collection, error) {
 	// Validate single string input
 	if length := len(input); length > 1 {
-		return nil, fmt.Errorf("%w: input has length %v, expected 1", ErrWrongArity, length)
+		return nil, fmt.Errorf("%w: input has length %v, expected 1", expr.ErrNotSingleton, length)
 	} else if length == 0 {
 		return system.Collection{}, nil
 	}
@@ -123,7 +123,7 @@ func Upper(ctx *expr.Context, input system.Collection, args ...expr.Expression) 
 func Lower(ctx *expr.Context, input system.Collection, args ...expr.Expression) (system.Collection, error) {
 	// Validate single string input
 	if length := len(input); length > 1 {
-		return nil, fmt.Errorf("%w: input has length %v, expected 1", ErrWrongArity, length)
+		return nil, fmt.Errorf("%w: input has length %v, expected 1", expr.ErrNotSingleton, length)
 	} else if length == 0 {
 		return system.Collection{}, nil
 	}
@@ -144,7 +144,7 @@ func Lower(ctx *expr.Context, input system.Collection, args ...expr.Expression) 
 func Contains(ctx *expr.Context, input system.Collection, args ...expr.Expression) (system.Collection, error) {
 	// Validate single string input
 	if length := len(input); length > 1 {
-		return nil, fmt.Errorf("%w: input has length %v, expected 1", ErrWrongArity, length)
+		return nil, fmt.Errorf("%w: input has length %v, expected 1", expr.ErrNotSingleton, length)
 	} else if length == 0 {
 		return system.Collection{}, nil
 	}
@@ -161,7 +161,7 @@ func Contains(ctx *expr.Context, input system.Collection, args ...expr.Expressio
 	if err != nil {
 		return nil, err
 	} else if length := len(output); length != 1 {
-		return nil, fmt.Errorf("%w: received %v arguments, expected 1", ErrWrongArity, length)
+		return nil, fmt.Errorf("%w: argument evaluates to %v items, expected 1", expr.ErrNotSingleton, length)
 	}
 	substring, err := output.ToString()
 	if err != nil {
@@ -176,7 +176,7 @@ func Contains(ctx *expr.Context, input system.Collection, args ...expr.Expressio
 func ToChars(ctx *expr.Context, input system.Collection, args ...expr.Expression) (system.Collection, error) {
 	// Validate single string input
 	if length := len(input); length > 1 {
-		return nil, fmt.Errorf("%w: input has length %v, expected 1", ErrWrongArity, length)
+		return nil, fmt.Errorf("%w: input has length %v, expected 1", expr.ErrNotSingleton, length)
 	} else if length == 0 {
 		return system.Collection{}, nil
 	}
@@ -201,7 +201,7 @@ func ToChars(ctx *expr.Context, input system.Collection, args ...expr.Expression
 func Substring(ctx *expr.Context, input system.Collection, args ...expr.Expression) (system.Collection, error) {
 	// Validate single string input
 	if length := len(input); length > 1 {
-		return nil, fmt.Errorf("%w: input has length %v, expected 1", ErrWrongArity, length)
+		return nil, fmt.Errorf("%w: input has length %v, expected 1", expr.ErrNotSingleton, length)
 	} else if length == 0 {
 		return system.Collection{}, nil
 	}
@@ -220,7 +220,7 @@ func Substring(ctx *expr.Context, input system.Collection, args ...expr.Expressi
 	if err != nil {
 		return nil, err
 	} else if length := len(startOutput); length != 1 {
-		return nil, fmt.Errorf("%w: received %v arguments, expected 1", ErrWrongArity, length)
+		return nil, fmt.Errorf("%w: argument evaluates to %v items, expected 1", expr.ErrNotSingleton, length)
 	}
 	start, err := startOutput.ToInt32()
 	if err != nil {
@@ -239,7 +239,7 @@ func Substring(ctx *expr.Context, input system.Collection, args ...expr.Expressi
 		if err != nil {
 			return nil, err
 		} else if length := len(lengthOutput); length != 1 {
-			return nil, fmt.Errorf("%w: received %v arguments, expected 1", ErrWrongArity, length)
+			return nil, fmt.Errorf("%w: argument evaluates to %v items, expected 1", expr.ErrNotSingleton, length)
 		}
 		substringLength, err = lengthOutput.ToInt32()
 		if err != nil {
@@ -262,7 +262,7 @@ func Substring(ctx *expr.Context, input system.Collection, args ...expr.Expressi
 func IndexOf(ctx *expr.Context, input system.Collection, args ...expr.Expression) (system.Collection, error) {
 	// Validate single string input
 	if length := len(input); length > 1 {
-		return nil, fmt.Errorf("%w: input has length %v, expected 1", ErrWrongArity, length)
+		return nil, fmt.Errorf("%w: input has length %v, expected 1", expr.ErrNotSingleton, length)
 	} else if length == 0 {
 		return system.Collection{}, nil
 	}
@@ -282,7 +282,7 @@ func IndexOf(ctx *expr.Context, input system.Collection, args ...expr.Expression
 		// Return empty for empty argument
 		return system.Collection{}, nil
 	} else if length > 1 {
-		return nil, fmt.Errorf("%w: received %v arguments, expected 1", ErrWrongArity, length)
+		return nil, fmt.Errorf("%w: argument evaluates to %v items, expected 1", expr.ErrNotSingleton, length)
 	}
 	substring, err := output.ToString()
 	if err != nil {
@@ -301,7 +301,7 @@ func IndexOf(ctx *expr.Context, input system.Collection, args ...expr.Expression
 func Matches(ctx *expr.Context, input system.Collection, args ...expr.Expression) (system.Collection, error) {
 	// Validate single string input
 	if length := len(input); length > 1 {
-		return nil, fmt.Errorf("%w: input has length %v, expected 1", ErrWrongArity, length)
+		return nil, fmt.Errorf("%w: input has length %v, expected 1", expr.ErrNotSingleton, length)
 	} else if length == 0 {
 		return system.Collection{}, nil
 	}
@@ -320,7 +320,7 @@ func Matches(ctx *expr.Context, input system.Collection, args ...expr.Expression
 	} else if length := len(output); length == 0 {
 		return system.Collection{}, nil
 	} else if length != 1 {
-		return nil, fmt.Errorf("%w: received %v arguments, expected 1", ErrWrongArity, length)
+		return nil, fmt.Errorf("%w: argument evaluates to %v items, expected 1", expr.ErrNotSingleton, length)
 	}
 	regexString, err := output.ToString()
 	if err != nil {
@@ -339,7 +339,7 @@ func Matches(ctx *expr.Context, input system.Collection, args ...expr.Expression
 func Replace(ctx *expr.Context, input system.Collection, args ...expr.Expression) (system.Collection, error) {
 	// Validate single string input
 	if length := len(input); length > 1 {
-		return nil, fmt.Errorf("%w: input has length %v, expected 1", ErrWrongArity, length)
+		return nil, fmt.Errorf("%w: input has length %v, expected 1", expr.ErrNotSingleton, length)
 	} else if length == 0 {
 		return system.Collection{}, nil
 	}
@@ -360,7 +360,7 @@ func Replace(ctx *expr.Context, input system.Collection, args ...expr.Expression
 		// Empty arg
 		return system.Collection{}, nil
 	} else if length > 1 {
-		return nil, fmt.Errorf("%w: received %v arguments, expected 1", ErrWrongArity, length)
+		return nil, fmt.Errorf("%w: argument evaluates to %v items, expected 1", expr.ErrNotSingleton, length)
 	}
 	pattern, err := patternOutput.ToString()
 	if err != nil {
@@ -375,7 +375,7 @@ func Replace(ctx *expr.Context, input system.Collection, args ...expr.Expression
 		// Empty arg
 		return system.Collection{}, nil
 	} else if length > 1 {
-		return nil, fmt.Errorf("%w: received %v arguments, expected 1", ErrWrongArity, length)
+		return nil, fmt.Errorf("%w: argument evaluates to %v items, expected 1", expr.ErrNotSingleton, length)
 	}
 	substitution, err := subOutput.ToString()
 	if err != nil {
@@ -392,7 +392,7 @@ func Replace(ctx *expr.Context, input system.Collection, args ...expr.Expression
 func ReplaceMatches(ctx *expr.Context, input system.Collection, args ...expr.Expression) (system.Collection, error) {
 	// Validate single string input
 	if length := len(input); length > 1 {
-		return nil, fmt.Errorf("%w: input has length %v, expected 1", ErrWrongArity, length)
+		return nil, fmt.Errorf("%w: input has length %v, expected 1", expr.ErrNotSingleton, length)
 	} else if length == 0 {
 		return system.Collection{}, nil
 	}
@@ -412,7 +412,7 @@ func ReplaceMatches(ctx *expr.Context, input system.Collection, args ...expr.Exp
 	} else if length := len(regexOutput); length == 0 {
 		return system.Collection{}, nil
 	} else if length > 1 {
-		return nil, fmt.Errorf("%w: received %v arguments, expected 1", ErrWrongArity, length)
+		return nil, fmt.Errorf("%w: argument evaluates to %v items, expected 1", expr.ErrNotSingleton, length)
 	}
 	regexString, err := regexOutput.ToString()
 	if err != nil {
@@ -430,7 +430,7 @@ func ReplaceMatches(ctx *expr.Context, input system.Collection, args ...expr.Exp
 	} else if length := len(subOutput); length == 0 {
 		return system.Collection{}, nil
 	} else if length > 1 {
-		return nil, fmt.Errorf("%w: received %v arguments, expected 1", ErrWrongArity, length)
+		return nil, fmt.Errorf("%w: argument evaluates to %v items, expected 1", expr.ErrNotSingleton, length)
 	}
 	substitution, err := subOutput.ToString()
 	if err != nil {
